@@ -428,7 +428,20 @@ func genF64Bits(r *rand.Rand) (bits uint64, nan bool) {
 }
 
 // genPayload draws a string / raw payload. small keeps it short (truncation sweeps).
+// collidingWords are short strings that collide under common 32-bit string hashes (FNV-1a,
+// FNV-1, CRC32, Java's 31-multiplier hash, DJB2): different texts that a cache or intern table
+// keyed by such a hash alone would confuse.
+var collidingWords = []string{
+	"costarring", "liquid", "declinate", "macallums", "altarage", "zinke", // FNV-1a/32
+	"plumless", "buckeroo", // CRC32
+	"Aa", "BB", "AaAa", "BBBB", "AaBB", "BBAa", // s[0]*31^(n-1)+...
+	"hetairas", "mentioner", "heliotropes", "neurospora", // DJB2
+}
+
 func genPayload(r *rand.Rand, small bool) []byte {
+	if r.Intn(25) == 0 {
+		return []byte(collidingWords[r.Intn(len(collidingWords))])
+	}
 	var n int
 	p := r.Intn(1000)
 	if small {
